@@ -429,7 +429,7 @@ func drawC13(t *rapid.T) *Case {
 	if drawBool(t, "idlelong", 15) {
 		// a short idle timeout, and a pause longer than it while two streams are open and a third
 		// has just been closed: the connection is not idle, what follows is served as usual
-		// (wave 12, C13-u: the idle timer re-armed at every stream's end)
+		// (wave 12, C13-t: the idle timer re-armed at every stream's end)
 		p.Args = append(p.Args, "-timeout-http-idle", "2s")
 		steps = append(steps, Step{Kind: "sleep", DelayMS: rapid.IntRange(2100, 9000).Draw(t, "idlelongms")})
 	}
